@@ -87,6 +87,21 @@ def edits():
             out.append(("ret:%s:%s" % (a, b),
                         "fn f() -> %s\n{\n\tvar b: %s = %s;\n\treturn: b\n}\n" % (a, b, lit_for(b)) +
                         wrap_main(["var r: %s = f();" % a]), {333}))
+            # the same mismatch where the target is an element, a member or what a pointer points to
+            out.append(("elem_assign:%s:%s" % (a, b), wrap_main([
+                "var b: %s = %s;" % (b, lit_for(b)), "var arr: [2]%s = [%s, %s];" % (a, lit_for(a), lit_for(a)), "arr[1] = b;"]), {504}))
+            out.append(("elem_assign_nested:%s:%s" % (a, b), wrap_main([
+                "var b: %s = %s;" % (b, lit_for(b)), "var m: [2][2]%s = [[%s, %s], [%s, %s]];" % ((a,) + (lit_for(a),) * 4),
+                "m[1][0] = b;"]), {504}))
+            out.append(("elem_assign_via_pointer:%s:%s" % (a, b), wrap_main([
+                "var b: %s = %s;" % (b, lit_for(b)), "var arr: [2]%s = [%s, %s];" % (a, lit_for(a), lit_for(a)), "g(&arr, b);"],
+                pre="fn g(x: &[]%s, v: %s)\n{\n\tx[0] = v;\n}\n" % (a, b)), {504}))
+            out.append(("member_assign:%s:%s" % (a, b), wrap_main([
+                "var b: %s = %s;" % (b, lit_for(b)), "var s = Pair { m: %s, k: 1 };" % lit_for(a), "s.m = b;"],
+                pre="struct Pair\n{\n\tm: %s,\n\tk: i32,\n}\n" % a), {504}))
+            out.append(("deref_assign:%s:%s" % (a, b), wrap_main([
+                "var b: %s = %s;" % (b, lit_for(b)), "var a: %s = %s;" % (a, lit_for(a)), "g(&a, b);"],
+                pre="fn g(x: &%s, v: %s)\n{\n\tx = v;\n}\n" % (a, b)), {504}))
             out.append(("elem:%s:%s" % (a, b), wrap_main([
                 "var b: %s = %s;" % (b, lit_for(b)), "var arr: [2]%s = [%s, b];" % (a, lit_for(a))]), {504, 500, 551}))
     # argument count, including the empty argument list, in expression and statement position
